@@ -60,7 +60,7 @@ Inductive pc :=
 | PWState               (* pending data seen: tq = TARGET, initial load of the dq_state loop next (queue.c:4860) *)
 | PWBody (old : Z)      (* one iteration of the loop on the value old *)
 | PWOut                 (* cancelled, or nothing pending (tq decided by the other clauses of the wakeup): not modelled further *)
-| PMRet                 (* about to return *)
+| PMRet                 (* wakeup committed (or merge refused): push on the target queue if newly enqueued, return *)
 (* the drain side: _dispatch_source_invoke (and any other holder of the source's drain lock) *)
 | PD0                   (* drain lock held, (re-)running the holder's examination of the source: top of invoke2 *)
 | PDSaw (v : Z)         (* ds_pending_data seen non-zero (794): latch next *)
@@ -109,7 +109,12 @@ Definition tstep (c : cfg) (p : pc) (e : event) : option pc :=
       if ev_kind e DVU_RET then Some PIdle
       else if eoff e =? OFF_STATE then Some PWOut
       else None
-  | PMRet => if ev_kind e DVU_RET then Some PIdle else None
+  | PMRet =>
+      (* after a commit that set ENQUEUED the source is pushed on its target queue (dx_push, the target lane's business);
+         that push reads the source's DQF_BARRIER_BIT (_dispatch_object_is_barrier, inline_internal.h:170) *)
+      if ev_kind e DVU_RET then Some PIdle
+      else if ev_is e DV_LOAD MO_RELAXED OFF_FLAGS then Some PMRet
+      else None
   | PD0 =>
       if ev_is e DV_LOAD MO_RELAXED OFF_PEND then Some (pend_seen (ea e))
       else if ev_kind e DVX_UNLOCK then Some PIdle
